@@ -902,6 +902,42 @@ fn style_sections_contain_more_than_one_style(sections: &[(Style, &str)]) -> boo
     }
 }
 
+/// Verification hook: `superimpose_style_sections`, unchanged.
+#[cfg(dandavison_delta_verif)]
+pub fn verif_superimpose_style_sections(
+    syntax_style_sections: &[(SyntectStyle, &str)],
+    diff_style_sections: &[(Style, &str)],
+    true_color: bool,
+    null_syntect_style: SyntectStyle,
+) -> Vec<(Style, String)> {
+    superimpose_style_sections(
+        syntax_style_sections,
+        diff_style_sections,
+        true_color,
+        null_syntect_style,
+    )
+}
+
+/// Verification hook: the private `coalesce`, unchanged.
+#[cfg(dandavison_delta_verif)]
+pub fn verif_coalesce(
+    style_sections: Vec<((SyntectStyle, Style), char)>,
+    true_color: bool,
+    null_syntect_style: SyntectStyle,
+) -> Vec<(Style, String)> {
+    superimpose_style_sections::verif_coalesce(style_sections, true_color, null_syntect_style)
+}
+
+/// Verification hook: the private `Painter::get_syntax`, unchanged.
+#[cfg(dandavison_delta_verif)]
+pub fn verif_get_syntax<'a>(
+    syntax_set: &'a SyntaxSet,
+    filename: Option<&str>,
+    fallback: &str,
+) -> &'a SyntaxReference {
+    Painter::get_syntax(syntax_set, filename, fallback)
+}
+
 mod superimpose_style_sections {
     use syntect::highlighting::Style as SyntectStyle;
 
@@ -1007,6 +1043,16 @@ mod superimpose_style_sections {
             coalesced.push((style, current_string));
         }
         coalesced
+    }
+
+    /// Verification hook: the private `coalesce`, unchanged.
+    #[cfg(dandavison_delta_verif)]
+    pub fn verif_coalesce(
+        style_sections: Vec<((SyntectStyle, Style), char)>,
+        true_color: bool,
+        null_syntect_style: SyntectStyle,
+    ) -> Vec<(Style, String)> {
+        coalesce(style_sections, true_color, null_syntect_style)
     }
 
     #[cfg(test)]
